@@ -5,6 +5,9 @@ from __future__ import annotations
 
 import multiprocessing as mp
 import os
+import collections
+import dataclasses
+import json
 import random
 import time
 from concurrent.futures import ProcessPoolExecutor, TimeoutError as FutTimeout
@@ -157,6 +160,16 @@ def c08_unit(task):
                            task.get("max_runs", 600), task.get("nrandom", 8), task.get("seed", 0),
                            task.get("max_traces", 40))
     out["explore"] = info
+    if not info["failures"] and not any(out["patterns"].values()) and ncomm > 0:
+        # the same partition with every mapping / set in another order
+        parts = [r.part for r in pr.ranks]
+        cg = bool(task.get("order_codegen"))
+        base = [part_code(r.npart) for r in pr.ranks] if cg else None
+        probs, cnt, to = order_checks(spec, parts, ref, f"{task.get('seed')}:{task.get('index')}",
+                                      codegen=cg, base_code=base, timeout=task.get("timeout", 30.0))
+        if to:
+            out["timeout"] = True
+        out["order"] = {"problems": probs, "counters": dict(cnt)}
     return out
 
 
@@ -171,6 +184,193 @@ def c08_replay_unit(task):
     run = distrun.execute(spec, [r.npart for r in pr.ranks], sched)
     return {"what": distrun.check_exec(run, ref), "choices": sched.choices,
             "events": [repr(e) for e in run.events if e[0] in ("exec", "deliver", "deadlock", "finish")]}
+
+
+# --------------------------------------------------------------------------- order permutation layer
+
+class PermSet(frozenset):
+    """a frozenset whose iteration order (for loops, list(), sorted()) is chosen by the test: the
+    contract of DistributedGraphPart says `frozenset`, it says nothing about an order"""
+
+    def __new__(cls, items=()):
+        items = list(items)
+        self = super().__new__(cls, items)
+        self._order = items
+        return self
+
+    def __iter__(self):
+        return iter(self._order)
+
+    def __reduce__(self):
+        return (PermSet, (self._order,))
+
+
+ORDER_MODES = ("reversed", "shuffled")
+
+
+def permute_partition(part, mode, rng=None):
+    """the same DistributedGraphPartition with the entries of every mapping and every set-valued
+    field in another order (parts, name_to_output, name_to_recv_node, name_to_send_nodes and the
+    list of sends of one name, output_names, needed_pids, user / partition input names)"""
+    from pytato.distributed.partition import DistributedGraphPartition
+    if mode == "given":
+        return part
+
+    def order(xs):
+        xs = list(xs)
+        if mode == "reversed":
+            xs.reverse()
+        else:
+            rng.shuffle(xs)
+        return xs
+
+    def pset(st):
+        return PermSet(order(sorted(st, key=repr)))
+
+    parts = {}
+    for pid, p in order(sorted(part.parts.items(), key=lambda kv: repr(kv[0]))):
+        parts[pid] = dataclasses.replace(
+            p,
+            needed_pids=pset(p.needed_pids),
+            user_input_names=pset(p.user_input_names),
+            partition_input_names=pset(p.partition_input_names),
+            output_names=pset(p.output_names),
+            name_to_recv_node=dict(order(sorted(p.name_to_recv_node.items()))),
+            name_to_send_nodes={k: order(v) for k, v in order(sorted(p.name_to_send_nodes.items()))})
+    return DistributedGraphPartition(parts=parts,
+                                     name_to_output=dict(order(sorted(part.name_to_output.items()))),
+                                     overall_output_names=part.overall_output_names)
+
+
+def permuted(parts, mode, key):
+    return [permute_partition(p, mode, random.Random(f"perm:{key}:{mode}:{r}")) for r, p in enumerate(parts)]
+
+
+def _outcomes(outs):
+    return [{"status": o.status, "exc": type(o.exc).__name__ if o.status == "raised" else None,
+             "text": str(o.exc)[:160] if o.status == "raised" else None} for o in outs]
+
+
+def verify_world(parts, n, timeout=30.0):
+    from pytato.distributed.verify import verify_distributed_partition
+    world = fakempi.World(n, timeout=timeout)
+    return world.run(lambda comm: verify_distributed_partition(comm, parts[comm.rank]))
+
+
+def _tag_table(part, npart):
+    """symbolic tag -> integer tag, read off the partition before / after numbering"""
+    tab = {}
+    bad = []
+    for pid, p in part.parts.items():
+        q = npart.parts[pid]
+        for nm, rv in p.name_to_recv_node.items():
+            tab.setdefault(repr(rv.comm_tag), set()).add(q.name_to_recv_node[nm].comm_tag)
+        for nm, sds in p.name_to_send_nodes.items():
+            for a, b in zip(sds, q.name_to_send_nodes[nm]):
+                tab.setdefault(repr(a.comm_tag), set()).add(b.comm_tag)
+    return tab
+
+
+def order_checks(spec, parts, ref, key, modes=ORDER_MODES, execute=True, codegen=False, base_code=None,
+                 timeout=30.0):
+    """a valid program's real partition, rebuilt with every mapping / set in another order:
+    verify must accept, the tags must still be numbered consistently, the execution must give the
+    reference values, the generated code must not change. Returns (problems, counters)"""
+    from pytato.distributed.tags import number_distributed_tags
+    n = spec["nranks"]
+    problems = []
+    cnt = collections.Counter()
+    for mode in modes:
+        perm = permuted(parts, mode, key)
+        cnt["permuted_partitions"] += 1
+        outs = verify_world(perm, n, timeout)
+        if any(o.status == "timeout" for o in outs):
+            return problems, cnt, True
+        bad = [o for o in outs if o.status == "raised"]
+        if bad:
+            problems.append({"order": mode, "what": f"verify:{type(bad[0].exc).__name__}",
+                             "detail": str(bad[0].exc)[:200]})
+        world = fakempi.World(n, timeout=timeout)
+        outs = world.run(lambda comm: number_distributed_tags(comm, perm[comm.rank], base_tag=distrun.BASE_TAG))
+        if any(o.status == "timeout" for o in outs):
+            return problems, cnt, True
+        bad = [o for o in outs if o.status != "ok"]
+        if bad:
+            problems.append({"order": mode, "what": f"number-tags:{type(bad[0].exc).__name__}",
+                             "detail": str(bad[0].exc)[:200]})
+            continue
+        nparts = [o.value[0] for o in outs]
+        nexts = {o.value[1] for o in outs}
+        table: dict = {}
+        for r in range(n):
+            for k_, v in _tag_table(perm[r], nparts[r]).items():
+                table.setdefault(k_, set()).update(v)
+        ints = [next(iter(v)) for v in table.values() if len(v) == 1]
+        if any(len(v) != 1 for v in table.values()):
+            problems.append({"order": mode, "what": "number-tags:one-tag-several-integers", "detail": repr(table)[:200]})
+        elif len(set(ints)) != len(ints):
+            problems.append({"order": mode, "what": "number-tags:collision", "detail": repr(table)[:200]})
+        elif len(nexts) != 1 or sorted(ints) != list(range(distrun.BASE_TAG, distrun.BASE_TAG + len(ints))) \
+                or nexts != {distrun.BASE_TAG + len(ints)}:
+            problems.append({"order": mode, "what": "number-tags:not-contiguous", "detail": repr((table, nexts))[:200]})
+        cnt["tag_tables"] += 1
+        if execute:
+            for sc in (fakempi.Scheduler(), fakempi.Scheduler(rng=random.Random(f"ordsched:{key}:{mode}"))):
+                run = distrun.execute(spec, nparts, sc)
+                msg = distrun.check_exec(run, ref)
+                cnt["executions"] += 1
+                if msg == "pruned":
+                    continue
+                if msg is not None:
+                    problems.append({"order": mode, "what": "execute:" + _exec_class(msg), "detail": str(msg)[:200],
+                                     "choices": sc.choices})
+                    break
+        if codegen and base_code is not None:
+            code = [part_code(np_) for np_ in nparts]
+            cnt["codegen_partitions"] += 1
+            for r in range(n):
+                if code[r] != base_code[r]:
+                    fld = _code_difference(base_code[r], code[r])
+                    problems.append({"order": mode, "what": f"codegen:{fld}", "detail": f"rank {r}"})
+                    break
+    return problems, cnt, False
+
+
+def _exec_class(msg):
+    m = str(msg).split(":")
+    if m[0] == "raised" and len(m) >= 3:
+        return f"raised:{m[2]}"
+    return m[0]
+
+
+def part_code(npart):
+    """per part: canonical kernel dump, argument order, bound-argument names (tag integers are
+    replaced by their rank among the integers, numbering depends on the order tags are met)"""
+    from pytato.distributed.execute import generate_code_for_partition
+    from . import cexec
+    try:
+        prgs = generate_code_for_partition(npart)
+    except Exception as e:      # noqa: BLE001
+        return {"error": type(e).__name__}
+    out = {}
+    for pid in sorted(prgs):
+        bp = prgs[pid]
+        out[pid] = {"kernel": json.dumps(cexec.canonical_dump(bp.program), sort_keys=True, default=str),
+                    "arg_order": [a.name for a in bp.program.default_entrypoint.args],
+                    "bound": sorted(bp.bound_arguments)}
+    return out
+
+
+def _code_difference(a, b):
+    if "error" in a or "error" in b:
+        return "raises"
+    if sorted(a) != sorted(b):
+        return "parts"
+    for pid in a:
+        for f in ("arg_order", "bound", "kernel"):
+            if a[pid][f] != b[pid][f]:
+                return f
+    return "?"
 
 
 # --------------------------------------------------------------------------- C09 unit
@@ -314,6 +514,15 @@ def c09_unit(task):
     # int tag of every message as the model should produce it
     out["int_tags"] = sorted((list(cid), int(it)) for cid, it in sends.items()
                              if isinstance(it, (int, np.integer)))
+    if all(r.status == "ok" for r in pb.ranks) and not any(out["patterns"].values()) and out["stats"]["ncomm"] > 0:
+        # the same partition with the entries of every mapping / set in another order:
+        # verify must still accept, the tags must still be numbered consistently
+        probs, cnt, to = order_checks(spec, [r.part for r in pa.ranks], None,
+                                      f"{task.get('seed')}:{task.get('index')}", execute=False,
+                                      timeout=task.get("timeout", 30.0))
+        if to:
+            out["timeout"] = True
+        out["order"] = {"problems": probs, "counters": dict(cnt)}
     return out
 
 
@@ -365,7 +574,11 @@ def c10_unit(task):
 PART_FAULTS = ["none", "dup_send_same_array", "dup_send_other_array", "dup_send_other_dtype",
                "dup_send_other_part", "orphan_send_existing_rank", "orphan_send_rank_beyond_size",
                "drop_recv", "drop_send", "retag_send", "cycle_needed_pids", "recv_name_as_output",
-               "drop_output_read_later"]
+               "drop_output_read_later",
+               # cycles of every length through every edge class (needed_pids / name / send->receive)
+               "needs_self", "needs_later_part", "name_edge_from_later_part", "name_edge_self",
+               "self_send_recv_same_part", "self_send_later_recv_earlier", "self_send_earlier_recv_later",
+               "cross_rank_cycle"]
 
 
 def _all_sends(part):
@@ -480,6 +693,91 @@ def apply_partition_fault(parts, kind, site, size):
         pids = sorted(parts[r].parts)
         return with_part(r, pids[0], needed_pids=parts[r].parts[pids[0]].needed_pids | {pids[-1]}), \
             f"rank {r}: part {pids[0]} additionally needs part {pids[-1]}"
+    def add_send_recv(rs, ps, rr, pr_, tag):
+        """a new message: send in part ps of rank rs -> receive in part pr_ of rank rr"""
+        from pytato.distributed.nodes import make_distributed_recv, make_distributed_send
+        p_s = parts[rs].parts[ps]
+        outs = [n for n in sorted(p_s.output_names) if n in parts[rs].name_to_output]
+        if not outs:
+            return None
+        name = outs[site % len(outs)]
+        ary = parts[rs].name_to_output[name]
+        new = list(parts)
+        m = {n: list(v) for n, v in p_s.name_to_send_nodes.items()}
+        m.setdefault(name, []).append(make_distributed_send(ary, rr, tag))
+        np_s = dict(new[rs].parts)
+        np_s[ps] = dataclasses.replace(p_s, name_to_send_nodes=m)
+        new[rs] = DistributedGraphPartition(parts=np_s, name_to_output=new[rs].name_to_output,
+                                            overall_output_names=new[rs].overall_output_names)
+        p_r = new[rr].parts[pr_]
+        rm = dict(p_r.name_to_recv_node)
+        rm["_fault_recv"] = make_distributed_recv(rs, tag, ary.shape, ary.dtype)
+        np_r = dict(new[rr].parts)
+        np_r[pr_] = dataclasses.replace(p_r, name_to_recv_node=rm)
+        new[rr] = DistributedGraphPartition(parts=np_r, name_to_output=new[rr].name_to_output,
+                                            overall_output_names=new[rr].overall_output_names)
+        return new
+
+    if kind in ("needs_self", "needs_later_part", "name_edge_from_later_part", "self_send_recv_same_part",
+                "self_send_later_recv_earlier", "self_send_earlier_recv_later", "name_edge_self"):
+        multi = kind not in ("needs_self", "self_send_recv_same_part", "name_edge_self")
+        cands = [r for r, pt_ in enumerate(parts) if len(pt_.parts) >= (2 if multi else 1)]
+        if not cands:
+            return None
+        r = cands[site % len(cands)]
+        pids = sorted(parts[r].parts)
+        k = (site // len(cands))
+        if kind == "needs_self":
+            pid = pids[k % len(pids)]
+            return with_part(r, pid, needed_pids=parts[r].parts[pid].needed_pids | {pid}), \
+                f"rank {r}: part {pid} needs itself"
+        if kind == "name_edge_self":
+            pid = pids[k % len(pids)]
+            outs = sorted(parts[r].parts[pid].output_names)
+            if not outs:
+                return None
+            n_ = outs[site % len(outs)]
+            return with_part(r, pid, partition_input_names=parts[r].parts[pid].partition_input_names | {n_}), \
+                f"rank {r}: part {pid} lists its own output {n_} as a partition input (no cycle: verify skips it)"
+        # an ordered pair i < j of parts of the rank
+        pairs = [(a, b) for ia, a in enumerate(pids) for b in pids[ia + 1:]]
+        if kind == "self_send_recv_same_part":
+            pid = pids[k % len(pids)]
+            res_ = add_send_recv(r, pid, r, pid, "fault-loop")
+            return None if res_ is None else (res_, f"rank {r} part {pid}: sends to itself and waits for that message")
+        i, j = pairs[k % len(pairs)]
+        if kind == "needs_later_part":
+            return with_part(r, i, needed_pids=parts[r].parts[i].needed_pids | {j}), \
+                f"rank {r}: part {i} needs the later part {j} (cycle of length {pids.index(j) - pids.index(i) + 1})"
+        if kind == "name_edge_from_later_part":
+            outs = [n for n in sorted(parts[r].parts[j].output_names)]
+            if not outs:
+                return None
+            n_ = outs[site % len(outs)]
+            return with_part(r, i, partition_input_names=parts[r].parts[i].partition_input_names | {n_}), \
+                f"rank {r}: part {i} reads {n_}, an output of the later part {j}"
+        if kind == "self_send_later_recv_earlier":
+            res_ = add_send_recv(r, j, r, i, "fault-loop")
+            return None if res_ is None else (res_, f"rank {r}: part {j} sends to the rank itself, the earlier part {i} receives it")
+        res_ = add_send_recv(r, i, r, j, "fault-loop")
+        return None if res_ is None else (res_, f"rank {r}: part {i} sends to the rank itself, the later part {j} receives it")
+    if kind == "cross_rank_cycle":
+        # for a message (A, a) -> (B, b): a new message from (B, b) back to (A, a): each waits for the other
+        msgs = []
+        for rs, pt_ in enumerate(parts):
+            for pid, name, k_, sd in _all_sends(pt_):
+                rr = sd.dest_rank
+                if not (0 <= rr < size) or rr == rs:
+                    continue
+                for q in sorted(parts[rr].parts):
+                    for rv in parts[rr].parts[q].name_to_recv_node.values():
+                        if rv.src_rank == rs and rv.comm_tag == sd.comm_tag:
+                            msgs.append((rs, pid, rr, q))
+        if not msgs:
+            return None
+        rs, a, rr, b = msgs[site % len(msgs)]
+        res_ = add_send_recv(rr, b, rs, a, "fault-loop")
+        return None if res_ is None else (res_, f"rank {rr} part {b} answers to rank {rs} part {a}, which it waits for")
     if kind == "drop_output_read_later":
         cands = []
         for r, pt_ in enumerate(parts):
@@ -534,4 +832,47 @@ def c10_partfault_unit(task):
     out["pins"] = "(" + " ".join(
         f"({ps['rank']} {int(p['pid'])} ({' '.join(str(tabs[ps['rank']][nm]) for nm in p['pin'])}))"
         for ps in psers for p in ps["parts"]) + ")"
+    return out
+
+
+def c10_partfault_multi_unit(task):
+    """several faults injected (one at a time) into the REAL partition of one valid program; the
+    real verify_distributed_partition runs on the faulted partition as built and on copies with
+    every mapping / set in another order (task["orders"][i])"""
+    spec = get_spec(task)
+    n = spec["nranks"]
+    out = {"index": task.get("index"), "profile": task.get("profile"), "nranks": n, "spec": spec, "entries": []}
+    pr = distrun.partition_program(spec, timeout=task.get("timeout", 30.0), do_verify=False, do_number=False)
+    if any(r.status == "timeout" for r in pr.ranks):
+        out["timeout"] = True
+        return out
+    if not pr.all_ok:
+        out["inapplicable"] = "no partition"
+        return out
+    orig = [r.part for r in pr.ranks]
+    for (kind, site), orders in zip(task["faults"], task["orders"]):
+        res = apply_partition_fault(list(orig), kind, site, n)
+        if res is None:
+            continue
+        newparts, desc = res
+        ent = {"fault": [kind, site], "description": desc, "runs": {}}
+        for mode in ["given"] + list(orders):
+            ps = permuted(newparts, mode, f"{task.get('seed')}:{task.get('index')}:{kind}:{site}")
+            outs = verify_world(ps, n, task.get("timeout", 30.0))
+            if any(o.status == "timeout" for o in outs):
+                out["timeout"] = True
+                return out
+            ent["runs"][mode] = _outcomes(outs)
+        for rp, np_ in zip(pr.ranks, newparts):
+            rp.part = np_
+            rp.npart = None
+        psers = [distrun.serialize_partition(pr, r) for r in range(n)]
+        tabs = distrun.name_tables(psers)
+        ent["P"] = distrun.lean_partition(psers, tabs)
+        ent["pins"] = "(" + " ".join(
+            f"({ps['rank']} {int(p['pid'])} ({' '.join(str(tabs[ps['rank']][nm]) for nm in p['pin'])}))"
+            for ps in psers for p in ps["parts"]) + ")"
+        out["entries"].append(ent)
+    for rp, op in zip(pr.ranks, orig):
+        rp.part = op
     return out
